@@ -18,7 +18,7 @@ func init() { Register(c08{}) }
 func (c08) ID() string    { return "C08" }
 func (c08) Level() string { return "fault_enumeration" }
 func (c08) Rule() string {
-	return "workload = valid file from a seeded fault-free writer run (strings up to 300 bytes in half of the files, page size 1..50). Cases per file: fixed chunk size c for EVERY c in 1..(largest single read the reader requests on that file) [quick: every c <= 48 and a seeded sample above; sizes above 512 and the 1-2% files of the large class (pages of 100..1200 records) are sampled in both tiers], seeded random fragmentations, random-small (1..3 bytes), len-1, one-byte-after-seek; each x eof_with_data {off,on} x source kind {ReadSeeker, ReadSeeker+ByteReader} (thorough: all four combinations per c; quick: one seeded combination per c). Non-trivial = at least one Read really returned fewer bytes than requested; distinct = distinct (file digest, policy, arg, eof flag, source kind)."
+	return "workload = valid file from a seeded fault-free writer run (strings up to 300 bytes in half of the files, page size 1..50). Cases per file: fixed chunk size c for EVERY c in 1..(largest single read the reader requests on that file) [quick: every c <= 48 and a seeded sample above; sizes above 512 and the 1-2% files of the large class (pages of 100..1200 records) are sampled in both tiers], seeded random fragmentations, random-small (1..3 bytes), len-1, one-byte-after-seek; each x eof_with_data {off,on} x source kind {ReadSeeker; +ByteReader; +ByteReader+ReaderAt+WriterTo} (thorough: all six combinations per c; quick: one seeded combination per c). Non-trivial = at least one Read really returned fewer bytes than requested; distinct = distinct (file digest, policy, arg, eof flag, source kind)."
 }
 func (c08) Assumptions() []string {
 	return []string{
@@ -27,7 +27,7 @@ func (c08) Assumptions() []string {
 	}
 }
 func (c08) Probes() []string {
-	return []string{"policy/fixed", "policy/random", "policy/small", "policy/lenm1", "policy/onefull", "eof_with_data/fired", "kind/rsb", "kind/rs", "codec/gzip", "codec/snappy", "codec/uncompressed", "shortened/ge100perrun", "class/large"}
+	return []string{"policy/fixed", "policy/random", "policy/small", "policy/lenm1", "policy/onefull", "eof_with_data/fired", "kind/rsb", "kind/rs", "kind/rsx", "codec/gzip", "codec/snappy", "codec/uncompressed", "shortened/ge100perrun", "class/large"}
 }
 func (c08) Runs(tier string) int {
 	if tier == "thorough" {
@@ -52,7 +52,8 @@ func (p c08) Run(runseed uint64, tier string, acc *Acc) []*core.Violation {
 	limit := 2*len(f.Want) + 16
 	base, bsrc := baselineRead(f.W.Shape, f.Data, "rs", limit)
 	baseB, _ := baselineRead(f.W.Shape, f.Data, "rsb", limit)
-	if !usableBaseline(base, f.Want) || !usableBaseline(baseB, f.Want) {
+	baseX, _ := baselineRead(f.W.Shape, f.Data, "rsx", limit)
+	if !usableBaseline(base, f.Want) || !usableBaseline(baseB, f.Want) || !usableBaseline(baseX, f.Want) {
 		acc.Unusable++
 		return nil
 	}
@@ -61,7 +62,7 @@ func (p c08) Run(runseed uint64, tier string, acc *Acc) []*core.Violation {
 	acc.Inc("shape/" + f.W.Shape)
 	maxReq := bsrc.Stats.MaxReadReq
 	var frags []core.Frag
-	kinds := []string{"rs", "rsb"}
+	kinds := []string{"rs", "rsb", "rsx"}
 	addAll := func(fr core.Frag) {
 		if tier == "thorough" {
 			for _, e := range []bool{false, true} {
@@ -109,7 +110,7 @@ func (p c08) Run(runseed uint64, tier string, acc *Acc) []*core.Violation {
 		if tier == "thorough" {
 			ks = kinds
 		} else {
-			ks = []string{kinds[r.Intn(2)]}
+			ks = []string{kinds[r.Intn(3)]}
 		}
 		for _, k := range ks {
 			c := &core.Case{Prop: "C08", Seed: runseed, W: f.W, SourceKind: k, Frag: &frags[i]}
@@ -202,7 +203,7 @@ func (p c08) Shrink(c *core.Case) []*core.Case {
 		n.Frag = &g
 		out = append(out, &n)
 	}
-	if c.SourceKind == "rsb" {
+	if c.SourceKind == "rsb" || c.SourceKind == "rsx" {
 		n := *c
 		n.SourceKind = "rs"
 		out = append(out, &n)
